@@ -546,7 +546,8 @@ def _main(prop, pid, tier, seed, replay, t0):
         "wall_s": round(time.time() - t0, 2),
         "violations": len(violations) if violations else (1 if rc == 1 else 0),
     }
-    write_evidence(pid, ev)
+    if not replay:          # a --replay run covers one case: it must not replace the evidence of the last full run
+        write_evidence(pid, ev)
     for l in out_lines:
         print(l)
     print(f"{pid} {tier}: {len(cases)} cases ({len(nontriv)} distinct non-trivial, {n_lean} through Lean L/S), "
